@@ -570,6 +570,8 @@ fn request(case: &Case) -> String {
 fn answer(case: &Case, obs: &Result<Obs, ()>) -> String {
     let Ok(obs) = obs else { return "panic".to_string() };
     match case.acc.as_str() {
+        // the extents of a window without cells are not compared with the model (the property does not fix them)
+        "grid" if obs.height * obs.width == 0 => format!("empty {}", obs.is_empty as u8),
         "grid" => format!(
             "{} {} {} {}",
             obs.height,
@@ -604,6 +606,9 @@ fn judge(case: &Case, win: &Mat, obs: &Result<Obs, ()>) -> Option<(String, Value
     let bad = |what: &str, e: Value, g: Value| Some((what.to_string(), e, g));
     if !win.is_empty() && (obs.height, obs.width) != (hs, ws) {
         return bad("height/width differ from the window selected on a plain matrix", json!([hs, ws]), json!([obs.height, obs.width]));
+    }
+    if win.is_empty() && obs.height * obs.width != 0 {
+        return bad("height x width is not zero although the chain selects no cell", json!(0), json!([obs.height, obs.width]));
     }
     if obs.is_empty != win.is_empty() {
         return bad("is_empty differs from the window selected on a plain matrix", json!(win.is_empty()), json!(obs.is_empty));
